@@ -697,6 +697,9 @@ def _load_symbol(type_name: str) -> Any:
 
   # Import symbol based on the module and symbol name.
   *maybe_modules, symbol_name = type_name.split('.')
+  if not symbol_name or not all(maybe_modules):
+    # An empty component ('a..b', 'a.', '.b') names nothing.
+    raise ModuleNotFoundError(f'Cannot load symbol {type_name!r}.')
   module_end_pos = None
 
   # NOTE(daiyip): symbols could be nested within classes, for example::
